@@ -63,6 +63,13 @@ inline const std::map<std::string, std::string> &poolTexts()
          "    <math xmlns=\"" MML "\">\n      <apply>\n        <eq/>\n        <apply>\n          <diff/>\n          <bvar>\n            <ci>t</ci>\n          </bvar>\n          <ci>x</ci>\n        </apply>\n"
          "        <apply>\n          <times/>\n          <ci>k</ci>\n          <cn cellml:units=\"per_s\">3</cn>\n        </apply>\n      </apply>\n    </math>\n  </component>\n"
          "  <units name=\"per_s\"><unit units=\"second\" exponent=\"-1\"/></units>\n</model>\n"},
+        // the same model in milliseconds: units of the same name as in "ode" with another definition, named by a <cn>
+        {"ode2",
+         "<?xml version=\"1.0\" encoding=\"UTF-8\"?>\n<model xmlns=\"" NS20 "\" xmlns:cellml=\"" NS20 "\" name=\"ode2\">\n"
+         "  <units name=\"ms\"><unit units=\"second\" prefix=\"milli\"/></units>\n  <units name=\"per_s\"><unit units=\"ms\" exponent=\"-1\"/></units>\n"
+         "  <component name=\"c\"><variable name=\"t\" units=\"ms\"/><variable name=\"x\" units=\"dimensionless\" initial_value=\"1\"/>"
+         "<variable name=\"k\" units=\"dimensionless\" initial_value=\"2\"/>"
+         "<math xmlns=\"" MML "\"><apply><eq/><apply><diff/><bvar><ci>t</ci></bvar><ci>x</ci></apply><apply><times/><ci>k</ci><cn cellml:units=\"per_s\">3</cn></apply></apply></math></component>\n</model>\n"},
         {"alg",
          "<?xml version=\"1.0\" encoding=\"UTF-8\"?>\n<model xmlns=\"" NS20 "\" xmlns:cellml=\"" NS20 "\" name=\"alg\">\n"
          "  <component name=\"c\"><variable name=\"a\" units=\"dimensionless\" initial_value=\"4\"/><variable name=\"b\" units=\"dimensionless\"/>"
